@@ -1,7 +1,7 @@
 package ciphersuite
 
 //symgo:pkg github.com/pion/dtls/v3/internal/ciphersuite
-//symgo:param NAD quick=4 thorough=17
+//symgo:param NAD quick=5 thorough=17
 //symgo:param NADPAY quick=2 thorough=4
 //symgo:replace github.com/pion/dtls/v3/pkg/crypto/prf.PHash zzAdPHash
 //symgo:replace crypto/hmac.New zzAdHmacNew
@@ -162,10 +162,10 @@ func zzAdRandRead(b []byte) (int, error) {
 }
 
 // Application data flows in both directions once both sides hold the same master secret. For a DTLS 1.2
-// suite (quick: one per family GCM / CCM / CBC / ChaCha20-Poly1305; thorough: all 17), a symbolic 48-byte master
+// suite (quick: one per family GCM / CCM / CBC / ChaCha20-Poly1305 plus one CCM_8; thorough: all 17), a symbolic 48-byte master
 // secret and symbolic randoms, a client instance (Init ..., true) and a server instance (Init ..., false) are
 // set up; one of them protects one application-data record of epoch 1 with an arbitrary 48-bit sequence number
-// and NADPAY arbitrary payload bytes - plain (content type 23) or connection-id framed (content type 25 with a
+// and 0, 1 or NADPAY arbitrary payload bytes - plain (content type 23) or connection-id framed (content type 25 with a
 // 2-byte CID and inner plaintext content || 23) - and the other one unprotects the resulting bytes. AEADs, HMAC
 // and P_hash are abstract (see stubs): unprotecting succeeds only if the receiver derives the same key, nonce /
 // IV and additional data / MAC input as the sender. Proved for both directions: Decrypt succeeds and returns
@@ -173,7 +173,16 @@ func zzAdRandRead(b []byte) (int, error) {
 //
 //symgo:entry covers=c2s,s2c,plain_record,cid_record,gcm,ccm,cbc,chacha
 func zzAppDataFlows() {
-	ids := zzKbSuites()
+	// quick tier: one suite per family plus a CCM_8 one (8-byte tag: the shortest protected records; seed C01k-2)
+	ids := []ID{}
+	for i, x := range zzKbSuites() {
+		if i == 4 {
+			ids = append(ids, TLS_ECDHE_ECDSA_WITH_AES_128_CCM_8)
+		}
+		if i < 4 || x != TLS_ECDHE_ECDSA_WITH_AES_128_CCM_8 {
+			ids = append(ids, x)
+		}
+	}
 	id := ids[zzsymChoice("suite", zzsymParam("NAD"))]
 	ms := zzsymBytes("master_secret", 48)
 	cr := zzsymBytes("client_random", 32)
@@ -192,7 +201,8 @@ func zzAppDataFlows() {
 
 	seq := zzsymU64("sequence_number")
 	zzsymAssume(seq <= recordlayer.MaxSequenceNumber)
-	payload := zzsymBytes("payload", zzsymParam("NADPAY"))
+	// payload lengths 0 (an empty write), 1 and NADPAY: short records must flow like any other
+	payload := zzsymBytes("payload", []int{zzsymParam("NADPAY"), 0, 1}[zzsymChoice("payload_len", 3)])
 	hdr := recordlayer.Header{ContentType: protocol.ContentTypeApplicationData, Version: protocol.Version1_2, Epoch: 1, SequenceNumber: seq}
 	rxHdr := recordlayer.Header{}
 	if zzsymChoice("cid_record", 2) == 1 {
